@@ -125,7 +125,159 @@ theorem blobLenOverflow_witness :
     Blob.decode { blobLenOverflow := true } [1] = .error .overflowPanic ∧ Blob.decode {} [1] = .error .eof :=
   ⟨by decide, by decide⟩
 
+/-! ## serialize / write_to / deserialize (types/core.rs) -/
+
+/-- Storing then loading returns the value unchanged — for every non-NULL value of every kind, at any cursor
+    (the value sits at the next multiple of its alignment), whatever precedes and follows it; the reader's new
+    cursor is exactly the end of the value. -/
+theorem serialize_roundtrip (v : Value) (hw : v.Wf) (hn : v ≠ .null) (pre rest : Bytes) (cursor : Nat)
+    (hc : alignUp cursor v.kind.align = pre.length) :
+    ∃ bs, serialize v = .ok bs ∧
+      deserialize {} v.kind (pre ++ bs ++ rest) cursor = .ok (v, pre.length + bs.length) := by
+  cases v with
+  | null => exact absurd rfl hn
+  | bool b =>
+    refine ⟨_, rfl, ?_⟩
+    simp only [Value.kind, Kind.align, alignUp_one] at hc
+    subst hc
+    simp only [deserialize, Value.kind, drop_pre]
+    cases b <;> rfl
+  | int i =>
+    refine ⟨_, rfl, ?_⟩
+    simp only [Value.kind, Kind.align] at hc
+    simp only [deserialize, Value.kind, hc, drop_pre, take32_le32 _ _ (toU32_lt i), ofU32_toU32 i hw, le32_length]
+  | bigint i =>
+    refine ⟨_, rfl, ?_⟩
+    simp only [Value.kind, Kind.align] at hc
+    simp only [deserialize, Value.kind, hc, drop_pre, take64_le64 _ _ (toU64_lt i), ofU64_toU64 i hw, le64_length]
+  | uint n =>
+    refine ⟨_, rfl, ?_⟩
+    simp only [Value.kind, Kind.align] at hc
+    simp only [deserialize, Value.kind, hc, drop_pre, take32_le32 _ _ hw, le32_length]
+  | biguint n =>
+    refine ⟨_, rfl, ?_⟩
+    simp only [Value.kind, Kind.align] at hc
+    simp only [deserialize, Value.kind, hc, drop_pre, take64_le64 _ _ hw, le64_length]
+  | float n =>
+    refine ⟨_, rfl, ?_⟩
+    simp only [Value.kind, Kind.align] at hc
+    simp only [deserialize, Value.kind, hc, drop_pre, take32_le32 _ _ hw, le32_length]
+  | double n =>
+    refine ⟨_, rfl, ?_⟩
+    simp only [Value.kind, Kind.align] at hc
+    simp only [deserialize, Value.kind, hc, drop_pre, take64_le64 _ _ hw, le64_length]
+  | blob d =>
+    refine ⟨_, rfl, ?_⟩
+    simp only [Value.kind, Kind.align, alignUp_one] at hc
+    subst hc
+    simp only [deserialize, Value.kind, drop_pre]
+    rw [blob_roundtrip d rest hw]
+
+
+/-- `write_to` followed by `deserialize` at the same cursor gives the value back and the cursor `write_to` returned;
+    writing changes nothing outside the value's own bytes. -/
+theorem write_then_read (v : Value) (hw : v.Wf) (buf : Bytes) (cursor : Nat) (buf' : Bytes) (c' : Nat)
+    (h : writeTo {} v buf cursor = .ok (some (buf', c'))) :
+    deserialize {} v.kind buf' cursor = .ok (v, c') ∧ buf'.length = buf.length ∧
+    buf'.take (alignUp cursor v.kind.align) = buf.take (alignUp cursor v.kind.align) ∧
+    buf'.drop c' = buf.drop c' := by
+  have hn : v ≠ .null := by
+    intro e; subst e; simp [writeTo, serialize] at h
+  unfold writeTo at h
+  split at h
+  · simp at h
+  · rename_i bs hs
+    simp only [Bool.false_eq_true, false_and, if_false] at h
+    split at h
+    · simp at h
+    · rename_i hfit
+      simp only [Except.ok.injEq, Option.some.injEq, Prod.mk.injEq] at h
+      obtain ⟨hb, hc'⟩ := h
+      have hlen : (buf.take (alignUp cursor v.kind.align)).length = alignUp cursor v.kind.align := by
+        simp only [List.length_take]; omega
+      obtain ⟨bs2, hs2, hd⟩ := serialize_roundtrip v hw hn (buf.take (alignUp cursor v.kind.align))
+        (buf.drop (alignUp cursor v.kind.align + bs.length)) cursor hlen.symm
+      rw [hs] at hs2
+      simp only [Except.ok.injEq] at hs2
+      subst hs2
+      subst hb
+      rw [hlen] at hd
+      refine ⟨by rw [hd, hc'], ?_, ?_, ?_⟩
+      · simp only [List.length_append, List.length_take, List.length_drop]; omega
+      · rw [List.append_assoc, List.take_left' hlen]
+      · subst hc'
+        rw [show alignUp cursor v.kind.align + bs.length = (buf.take (alignUp cursor v.kind.align) ++ bs).length by
+          simp only [List.length_append, hlen]]
+        rw [List.drop_left']
+        simp only [List.length_append, hlen]
+
+/-! ## try_cast (types/mod.rs, numeric.rs) -/
+
+/-- A cast to the value's own kind is the identity (for every value, also NaN and -0.0). -/
+theorem cast_same_kind_id (D : Defects) (v : Value) : tryCast D v v.kind = .ok v := by
+  simp [tryCast]
+
+/-- NULL casts to NULL of any kind. -/
+theorem cast_null (D : Defects) (k : Kind) : tryCast D .null k = .ok .null := by
+  cases k <;> simp [tryCast, Value.kind]
+
+/-- `i` is representable in integer kind `k` -/
+def Kind.InRange (k : Kind) (i : Int) : Prop :=
+  match k.intRange with
+  | some (lo, hi) => lo ≤ i ∧ i ≤ hi
+  | none => False
+
+instance (k : Kind) (i : Int) : Decidable (k.InRange i) := by
+  unfold Kind.InRange; split <;> infer_instance
+
+/-- Integer → integer casts preserve the mathematical value exactly when it fits the target, and are an error
+    (never a wrap-around) when it does not. -/
+theorem cast_int_exact (D : Defects) (v : Value) (k : Kind) (i : Int) (hw : v.Wf)
+    (hv : v.intVal = some i) (hk : k.isInteger = true) :
+    (k.InRange i → ∃ w, tryCast D v k = .ok w ∧ w.kind = k ∧ w.intVal = some i ∧ w.Wf) ∧
+    (¬ k.InRange i → tryCast D v k = .error .badCast) := by
+  cases v <;> simp only [Value.intVal, Option.some.injEq, reduceCtorEq] at hv <;> subst hv <;>
+    cases k <;> simp only [Kind.isInteger, Bool.false_eq_true] at hk <;>
+    simp only [Value.Wf, VarInt.InI64] at hw <;>
+    simp only [Kind.InRange, Kind.intRange, tryCast, Value.kind, Value.intVal, Value.ofInt, reduceCtorEq, if_false, if_true] <;>
+    (constructor
+     · intro hr
+       first
+         | exact ⟨_, rfl, rfl, rfl, by simp only [Value.Wf, VarInt.InI64]; omega⟩
+         | (rw [if_pos (by omega)]; exact ⟨_, rfl, rfl, by first | rfl | (simp only [Option.some.injEq]; omega), by simp only [Value.Wf, VarInt.InI64]; omega⟩)
+     · intro hr
+       first
+         | omega
+         | (rw [if_neg (by omega)]))
+
+
+/-- Bool → numeric → Bool is the identity for every numeric kind. -/
+theorem cast_bool_roundtrip (D : Defects) (b : Bool) (k : Kind) (hk : k.isNumeric = true) :
+    ∃ w, tryCast D (.bool b) k = .ok w ∧ w.kind = k ∧ tryCast D w .bool = .ok (.bool b) := by
+  cases k <;> simp only [Kind.isNumeric, Bool.false_eq_true] at hk <;> cases b <;>
+    exact ⟨_, rfl, rfl, rfl⟩
+
+/-- There is no cast between blobs and anything else, and none to the NULL kind (error, not garbage). -/
+theorem cast_unsupported (D : Defects) (v : Value) (k : Kind) (hn : v ≠ .null) (hne : v.kind ≠ k)
+    (h : v.kind = .blob ∨ k = .blob ∨ k = .null) : tryCast D v k = .error .badCast := by
+  cases v <;> cases k <;> simp_all [tryCast, Value.kind]
+
+/-- Shipped defect (fixed by f2c2f70): the double 2^63 cast to BIGINT gave i64::MAX instead of an error. -/
+theorem castSaturates_witness :
+    tryCast { castSaturates := true } (.double 4890909195324358656) .bigint = .ok (.bigint 9223372036854775807) ∧
+    tryCast {} (.double 4890909195324358656) .bigint = .error .badCast ∧
+    truncF64 4890909195324358656 = 9223372036854775808 := by
+  refine ⟨by decide, by decide, by decide⟩
+
+/-- Shipped defect (fixed by bd42e24): writing a bool anywhere but into the last byte of the buffer panicked. -/
+theorem boolWriteWholeTail_witness :
+    writeTo { boolWriteWholeTail := true } (.bool true) [0, 0] 0 = .error .slicePanic ∧
+    writeTo {} (.bool true) [0, 0] 0 = .ok (some ([1, 0], 1)) := by
+  refine ⟨by decide, by decide⟩
+
 /-- Non-vacuity of the hypotheses above. -/
+example : Value.Wf (.blob [1, 2, 3]) ∧ Value.Wf (.double 9221120237041090560) ∧ Value.Wf (.int (-2147483648)) := by decide
+example : Kind.InRange .uint 4294967295 ∧ ¬ Kind.InRange .uint (-1) := by decide
 example : VarInt.InI64 (-9223372036854775808) ∧ VarInt.InI64 9223372036854775807 := by decide
 example : VarInt.decode (VarInt.encode (-9223372036854775808) ++ [7]) = some (-9223372036854775808, [7]) := by decide
 
